@@ -382,6 +382,13 @@ func (s *Syncer) handleRPC(id types.Specifier, stream *gateway.Stream, origin *P
 		if err != nil {
 			return err
 		}
+		// only blocks on the best chain can be served: for a block that was
+		// never applied the stored parent state is derived from the parent's
+		// header only, which the requester would reject as an invalid
+		// checkpoint
+		if _, _, err := s.cm.Headers(r.Index, 0); err != nil {
+			return fmt.Errorf("checkpoint %v::%v not served: %w", r.Index.Height, r.Index.ID, err)
+		}
 		var ok1, ok2 bool
 		r.Block, ok1 = s.cm.Block(r.Index.ID)
 		r.State, ok2 = s.cm.State(r.Block.ParentID)
